@@ -320,7 +320,7 @@ def parse_vs_fullmatch(pat, strs, res):
                 got = f"raised {type(e).__name__}"
             if got != want:
                 res.violate(V("wrong-command-match", f"{kind} command {pat!r} on message {data!r}: parse -> {got}, the whole-message match gives {want}",
-                              site="RegexCommand.parse", kind=kind), {"pattern": pat, "input": s_, "parse": True})
+                              site="RegexCommand.parse", pattern_kind=kind), {"pattern": pat, "input": s_, "parse": True})
                 return
 
 
